@@ -319,7 +319,21 @@ int main(int argc, char** argv) {
         auto long_trace = [&](int kind, Result& R) {
             std::string rep = "long=" + std::to_string(kind); set_note(rep);
             BlockParameters bp; bp.storage_parameters.max_block_items = kind == 0 ? 100000 : 3; std::vector<BlockParameters> bps = {bp}; FilePreamble fp(bps); std::vector<std::string> outs; model::Exporter M({model::from(bp)});
-            int N = kind == 0 ? 3000 : 600;
+            int N = kind == 0 ? 3000 : kind == 1 ? 600 : 0;
+            if (kind == 2) { // more than 2^16 blocks in one output, a rotation exactly at a multiple of 2^16 blocks, then more blocks (counters wider than 16 bits)
+                BlockParameters b1; b1.storage_parameters.max_block_items = 1; std::vector<BlockParameters> bs = {b1}; FilePreamble fp1(bs); std::vector<std::string> o2; model::Exporter M2({model::from(b1)}); bool counters_ok = true; size_t reported = 0;
+                { CdnsExporter e(fp1, MemSink{&o2}, CborOutputCompression::NO_COMPRESSION); GenericQueryResponse q = P.qr[1];
+                  for (int i = 0; i < 65536 + 70000; i++) { q.transaction_id = i & 0xffff; q.client_port = (i >> 16) + 1; size_t r = e.buffer_qr(q); M2.buffer_qr(q, nullptr); if (i < 65536) reported += r;
+                      if (e.get_blocks_written_count() != M2.blocks_written) counters_ok = false;
+                      if (i == 65535) { reported += e.rotate_output(MemSink{&o2}, true); M2.rotate(true); } } }
+                R.count("traces"); R.count("nontrivial");
+                if (!counters_ok) R.violation("values|long-trace|block-counter", "get_blocks_written_count() disagrees with the number of blocks written (more than 65536 blocks per output)", rep);
+                if (o2.size() != 2) { R.violation("values|long-trace|outputs", "expected 2 outputs", rep); return; }
+                if (o2[0].size() != reported) R.violation("values|long-trace|byte-count", "first output has " + std::to_string(o2[0].size()) + " bytes, calls reported " + std::to_string(reported), rep);
+                for (int oi = 0; oi < 2; oi++) { size_t want = oi == 0 ? 65536 : 70000; try { ref::RFile rf = ref::read_file(o2[oi]); if (rf.blocks.size() != want) R.violation("values|long-trace|block-count", "output " + std::to_string(oi) + " holds " + std::to_string(rf.blocks.size()) + " blocks, expected " + std::to_string(want), rep);
+                        else for (size_t bi = 0; bi < rf.blocks.size(); bi += 4093) if (rf.blocks[bi].qrs.size() != 1 || rf.blocks[bi].qrs[0] != M2.outs[oi].blocks[bi].qrs[0]) { R.violation("values|long-trace|content", "block " + std::to_string(bi) + " of output " + std::to_string(oi) + " differs", rep); break; } }
+                    catch (std::exception& e) { R.violation("values|long-trace|invalid-output", "output " + std::to_string(oi) + " (" + std::to_string(want) + " blocks) is not a complete valid file: " + e.what(), rep); } }
+                R.outcome("long2"); R.sample(rep + ";blocks=65536+70000;bytes=" + std::to_string(o2[0].size()) + "+" + std::to_string(o2[1].size())); return; }
             { CdnsExporter e(fp, MemSink{&outs}, CborOutputCompression::NO_COMPRESSION);
               for (int i = 0; i < N; i++) { GenericQueryResponse g = P.qr[i % 5]; g.client_ip = std::string("\x0a", 1) + std::string(1, (char)(i >> 16)) + std::string(1, (char)(i >> 8)) + std::string(1, (char)i); g.query_name = std::string("\5label", 6) + std::to_string(i * 7919); g.transaction_id = i & 0xffff; g.ts = Timestamp(1600000000 + i / 7, (i * 142857) % 1000000);
                   e.buffer_qr(g); M.buffer_qr(g, nullptr); if (i % 11 == 0) { e.buffer_aec(P.aec[i % 3]); M.buffer_aec(P.aec[i % 3], nullptr); } if (i % 13 == 0) { GenericMalformedMessage m = P.mm[0]; m.client_port = i & 0xffff; e.buffer_mm(m); M.buffer_mm(m, nullptr); } }
@@ -334,11 +348,11 @@ int main(int argc, char** argv) {
         if (!a.replay.empty()) { std::string s = slurp(a.replay); Case c; int lk; Pool rp(1, 120);
             rp.run(1, [&](uint64_t, Result& R) { if (sscanf(s.c_str(), "long=%d", &lk) == 1) long_trace(lk, R); else if (sscanf(s.c_str(), "f1=%d;v1=%d;f2=%d;v2=%d;base=%d", &c.f1, &c.v1, &c.f2, &c.v2, &c.base) == 5) run_case(c, R); },
                    [&](uint64_t, const std::string& d, Result& R) { R.violation("values|" + crash_key(d), d.substr(0, 1500), s); }, total); return done(total.viol.empty() ? 0 : 1); }
-        uint64_t chunk = 16, ntasks = (cases.size() + chunk - 1) / chunk + 2;
+        uint64_t chunk = 16, ntasks = (cases.size() + chunk - 1) / chunk + 3;
         Pool pool(a.jobs, 300);
         pool.run(ntasks, [&](uint64_t ti, Result& R) {
             if (a.expired()) { R.deadline_hit = true; return; }
-            if (ti >= ntasks - 2) { long_trace((int)(ti - (ntasks - 2)), R); return; }
+            if (ti >= ntasks - 3) { long_trace((int)(ti - (ntasks - 3)), R); return; }
             for (uint64_t i = ti * chunk; i < std::min<uint64_t>(cases.size(), (ti + 1) * chunk); i++) run_case(cases[i], R);
             if (ti % 61 == 0) R.sample(std::string("field ") + F[cases[ti * chunk].f1].name + " variant " + std::to_string(cases[ti * chunk].v1) + " base " + std::to_string(cases[ti * chunk].base));
         }, [&](uint64_t, const std::string& d, Result& R) { R.violation("values|" + crash_key(d), d.substr(0, 1500), pool.last_note); }, total);
